@@ -1,0 +1,39 @@
+//go:build verif
+
+package skipset
+
+import "sync/atomic"
+
+// VerifShape is a read-only accessor for the verification harness (build tag verif only).
+// For every node on lane 0, in order, it reports on how many lanes the node is actually linked
+// (equal to node.level when the node is linked on lanes 0..level-1), together with the node's
+// level field, highestLevel and the cached length counter.
+func (s *Set[E]) VerifShape() (lanes []int, levels []int, highest int, length int64) {
+	idx := map[*node[E]]int{}
+	for x := s.header.atomicLoadNext(0); x != nil; x = x.atomicLoadNext(0) {
+		idx[x] = len(lanes)
+		lanes = append(lanes, 1)
+		levels = append(levels, int(x.level))
+	}
+	for i := 1; i < maxLevel; i++ {
+		for x := s.header.atomicLoadNext(i); x != nil; x = x.atomicLoadNext(i) {
+			if j, ok := idx[x]; ok {
+				lanes[j]++
+			} else {
+				lanes = append(lanes, -i)
+				levels = append(levels, int(x.level))
+			}
+			if int(x.level) <= i {
+				break
+			}
+		}
+	}
+	return lanes, levels, int(atomic.LoadInt64(&s.highestLevel)), atomic.LoadInt64(&s.length)
+}
+
+// VerifShape of the mutex-guarded wrapper.
+func (s *SetSafe[E]) VerifShape() ([]int, []int, int, int64) {
+	s.lock.Lock()
+	defer s.lock.Unlock()
+	return s.unsafe.VerifShape()
+}
